@@ -414,6 +414,10 @@ ANSI_RE = re.compile(
     "|\x1b\\][^\x07\x1b]*(?:\x07|\x1b\\\\)"   # OSC ... BEL | ST
     "|\x1b[PX^_][^\x1b]*\x1b\\\\"            # DCS / SOS / PM / APC ... ST
     "|\x1b[ -/]*[0-~]")                      # two-character and nF escapes
+UNTERMINATED_RE = re.compile(
+    "\x1b\\[[0-?]*[ -/]*$"                     # CSI without a final byte
+    "|\x1b\\][^\x07\x1b]*$"                    # OSC without BEL / ST
+    "|\x1b[PX^_][^\x1b]*$")                    # DCS / SOS / PM / APC without ST
 XML_INVALID = re.compile("[\x00-\x08\x0b\x0c\x0e-\x1f￾￿]")
 CTRL = re.compile("[\x00-\x09\x0b-\x1f\x80-\x9f]")
 
@@ -422,15 +426,27 @@ def lossy(b):
     return b.decode("utf-8", errors="replace")
 
 
+def strip_ansi(s):
+    """ANSI escapes removed; a sequence the stream ends in the middle of is an escape too (to the end of the
+    stream: an escape sequence never spans two streams or two attempts)"""
+    # an introducer (CSI, OSC, DCS / SOS / PM / APC) whose sequence is never completed swallows the rest
+    m = UNTERMINATED_RE.search(s)
+    if m:
+        s = s[:m.start()]
+    t = ANSI_RE.sub("", s)
+    j = t.find("\x1b")
+    return t if j < 0 else t[:j]
+
+
 def doc_junit(b):
     """documented: lossy UTF-8, ANSI escapes removed, characters invalid in XML removed"""
-    return XML_INVALID.sub("", ANSI_RE.sub("", lossy(b)))
+    return XML_INVALID.sub("", strip_ansi(lossy(b)))
 
 
 def doc_display(b):
     """documented (colour off): lossy UTF-8, ANSI escapes removed, a final newline"""
     body = b[:-1] if b.endswith(b"\n") else b
-    return ANSI_RE.sub("", lossy(body)) + "\n"
+    return strip_ansi(lossy(body)) + "\n"
 
 
 def lenient(s):
@@ -648,6 +664,13 @@ def fixed_runs(start):
                                                  "final_stderr": hx(b"err2"), "exit": 1}],
                                           "big": [{"stdout": {"seed": 5, "size": 70000, "ascii": True}, "stderr": {"seed": 6, "size": 3, "ascii": True}, "exit": 0}]},
                   flavour="combined"),
+        # a stream that ends inside an escape sequence (unterminated OSC title, half a colour sequence, a lone ESC):
+        # the other stream of the same attempt is still shown completely, header included
+        fixed_run(start + 7, "unterminated-escape", {
+            "osc": [{"stdout": hx(b"before \x1b]0;window title never terminated"), "stderr": hx(b"ERR-MARKER-OSC line\n"), "exit": 1}],
+            "csi": [{"stdout": hx(b"text \x1b[3"), "stderr": hx(b"ERR-MARKER-CSI line\n"), "exit": 1}],
+            "esc": [{"stdout": hx(b"tail\x1b"), "stderr": hx(b"ERR-MARKER-ESC line\n"), "exit": 1}],
+            "rev": [{"stderr": hx(b"e\x1b]0;t"), "stdout": hx(b"OUT-MARKER-REV line\n"), "exit": 1}]}, flavour="mixed"),
         # witness of the known finding F13 and regression witness of the repaired F14
         fixed_run(start + 5, "witness-F13", {"tabs": [{"stdout": hx(b"col1\tcol2\r\nend\n"), "exit": 1}]}),
         fixed_run(start + 6, "witness-F14", {"nonchar": [{"stdout": hx("x￿y\n".encode()), "exit": 1}]}),
@@ -1041,6 +1064,12 @@ def oracle_run(run, res):
                                  f"{want[:200]!r} -> documented {doc[:200]!r}")
 
     # ---- what nextest printed
+    for mk in run.get("markers", []):
+        # (a stream ending inside an escape sequence swallows the newline nextest appends after it, so the next
+        # header is glued to its last line and the section parser below cannot be used; the other stream's bytes
+        # must be shown all the same)
+        if mk not in res["stderr"]:
+            fails.append(f"display: the line {mk!r}, written to the other stream of the same attempt, is not shown at all")
     if not run.get("check_display"):
         return fails, known, cnt
     raw = run["flavour"] == "colour"
@@ -1149,6 +1178,9 @@ def run(tier, seed):
         chk.violation("broken-obligation", "e2e-build", dict(error=str(ex)[-3000:]), no_input=True)
         return chk.finish(gate, checker, [])
     runs = fixed_runs(0)
+    for run_ in runs:
+        if run_["name"] == "unterminated-escape":
+            run_["markers"] = ["ERR-MARKER-OSC line", "ERR-MARKER-CSI line", "ERR-MARKER-ESC line", "OUT-MARKER-REV line"]
     runs.append(leak_run(len(runs)))
     runs.append(terminate_run(len(runs)))
     runs.append(script_run(len(runs)))
